@@ -1,9 +1,10 @@
 (* Tree/Compat.v — model of Element::check_version_compatibility / recalc_element_type (element.rs),
-   ArxmlFile::check_version_compatibility and ArxmlFile::set_version (arxmlfile.rs).
-   STUB: the interface below is fixed (Tree/Script2.v and the drivers use it); the bodies are placeholders.
-   MODEL ONLY: definitions, no proofs. *)
+   ArxmlFile::check_version_compatibility and ArxmlFile::set_version (arxmlfile.rs), statement by statement.
+   The interface (`compat_err`, `f_check_version_compatibility`, `f_set_version`) is fixed: Tree/Script2.v and the drivers use it.
+   MODEL ONLY: definitions, no proofs (proofs: Tree/CompatProofs*.v, theorems: Properties/C17.v). *)
 From AV Require Import Base.Bytes Base.Outcome Hash.HashModel Tree.Heap Tree.Ops.
 Open Scope string_scope.
+Open Scope list_scope.
 Open Scope N_scope.
 
 (* CompatibilityError: IncompatibleAttribute {element, attribute, version_mask} | IncompatibleAttributeValue {element,
@@ -13,12 +14,103 @@ Inductive compat_err :=
 | CEAttrValue (e : id) (attr : N) (mask : N)
 | CEElem (e : id) (mask : N).
 
+Definition U32MAX : N := 4294967295.
+
+(* AutosarVersion::compatible(self, version_mask) = version_mask & self as u32 != 0 *)
+Definition compatible (target mask : N) : bool := negb (N.land mask target =? 0).
+
 Section Compat.
 Variable T : tables.
 
-(* ArxmlFile::check_version_compatibility(target) -> (errors in the order the Rust pushes them, version mask) *)
+(* Element::recalc_element_type:
+     if let Ok(Some(parent)) = self.parent() {
+         if let Some((etype, ..)) = parent.element_type().find_sub_element(self.element_name(), target_version as u32) { return etype; } }
+     self.element_type()
+   The parent's STORED type is used (not the parent's own recalculated type). *)
+Definition recalc_element_type (n : node) (target : N) : W (N * N) :=
+  match n_parent n with
+  | PElem p =>
+    (do pn <- get_node p;
+     do r <- wlift (find_sub_element T (n_type pn) (n_name n) target);
+     wret (match r with Some (et, _) => et | None => n_type n end))%W
+  | PModel _ => wret (n_type n)          (* Ok(None) *)
+  | PNone => wret (n_type n)             (* Err(ItemDeleted) *)
+  end.
+
+(* the attribute loop: `for attribute in &element.attributes { if let Some(AttributeSpec{spec, version, ..}) =
+   elemtype_new.find_attribute_spec(attribute.attrname) { ... } }`  — an attribute unknown to the new type is skipped *)
+Fixpoint attr_loop (self : id) (newty : N * N) (target : N) (attrs : list (N * cdata)) (errs : list compat_err) (mask : N)
+  : res (list compat_err * N) :=
+  match attrs with
+  | [] => Val (errs, mask)
+  | (an, v) :: rest =>
+    (let* sp := find_attribute_spec T newty an in
+     match sp with
+     | Some (_, spec, _, vmask) =>
+       let mask1 := N.land mask vmask in                                  (* overall_version_mask &= version_mask *)
+       if negb (compatible target vmask)
+       then attr_loop self newty target rest (errs ++ [CEAttr self an vmask]) mask1
+       else
+         let '(ok, vm) := value_compat v spec target in
+         let errs' := if ok then errs else errs ++ [CEAttrValue self an vm] in
+         attr_loop self newty target rest errs' (N.land mask1 vm)         (* overall_version_mask &= value_version_mask *)
+     | None => attr_loop self newty target rest errs mask
+     end)%res
+  end.
+
+(* Element::check_version_compatibility(&self, file, target_version) -> (Vec<CompatibilityError>, u32).
+   Recursion over the tree with the usual bound (number of allocated nodes + 1; a longer chain is cyclic). *)
+Fixpoint e_check (fuel : nat) (self f target : N) {struct fuel} : W (list compat_err * N) :=
+  match fuel with
+  | O => wfuel
+  | S fuel' =>
+    (do n <- get_node self;
+     (* let elemtype_new = self.recalc_element_type(target_version); *)
+     do newty <- recalc_element_type n target;
+     (* attributes *)
+     do '(errs0, mask0) <- wlift (attr_loop self newty target (n_attrs n) [] U32MAX);
+     (* for sub_element in self.sub_elements() *)
+     (fix sub_loop (items : list citem) (errs : list compat_err) (mask : N) {struct items} : W (list compat_err * N) :=
+        match items with
+        | [] => wret (errs, mask)
+        | CData _ :: rest => sub_loop rest errs mask
+        | CElem c :: rest =>
+          do cn <- get_node c;
+          (* file_membership.is_empty() || file_membership.contains(file) *)
+          if is_empty (n_files cn) || set_mem f (n_files cn) then
+            (* a.or(b): BOTH lookups are evaluated (the argument of `or` is eager) *)
+            do r1 <- wlift (find_sub_element T newty (n_name cn) target);
+            do r2 <- wlift (find_sub_element T newty (n_name cn) U32MAX);
+            match (match r1 with Some x => Some x | None => r2 end) with
+            | Some (_, indices) =>
+              (* self.element_type().get_sub_element_version_mask(&indices).unwrap()  — the OLD type with the NEW type's indices *)
+              do vm <- wlift (let* o := get_sub_element_version_mask T (n_type n) indices in
+                              unwrap "check_version_compatibility: get_sub_element_version_mask(..).unwrap()" o)%res;
+              let mask1 := N.land mask vm in
+              if negb (compatible target vm)
+              then sub_loop rest (errs ++ [CEElem c vm]) mask1
+              else
+                do '(serrs, smask) <- e_check fuel' c f target;
+                sub_loop rest (errs ++ serrs) (N.land mask1 smask)
+            | None => sub_loop rest errs mask         (* not found at all: skipped silently *)
+            end
+          else sub_loop rest errs mask
+        end) (n_content n) errs0 mask0)%W
+  end.
+
+(* ArxmlFile::check_version_compatibility(target) -> (errors in the order the Rust pushes them, version mask).
+   `self.model()` always succeeds here (the harness keeps every model alive: weak references upgrade). *)
 Definition f_check_version_compatibility (f target : N) : W (list compat_err * N) :=
-  let _ := T in wpanic "UNMODELLED: check_version_compatibility".
+  (do x <- get_file f;
+   do m <- get_model (f_model x);
+   do w <- wget;
+   e_check (fuel_of w) (m_root m) f target)%W.
+
 (* ArxmlFile::set_version *)
-Definition f_set_version (f target : N) : W unit := let _ := T in wpanic "UNMODELLED: set_version".
+Definition f_set_version (f target : N) : W unit :=
+  (do '(errs, _) <- f_check_version_compatibility f target;
+   if is_empty errs then
+     do x <- get_file f;
+     set_file f (mkFile (f_model x) (f_name x) target (f_standalone x))
+   else wfail VersionIncompatibleData)%W.
 End Compat.
